@@ -330,10 +330,13 @@ func (x *exec) useCountLib() {
 	ax("(forall (" + q + " (k Int)) (! (=> (not (select S k)) (= (cntge V M (store S k true) v) (+ (cntge V M S v) (ite (and (select V k) (>= (select M k) v)) 1 0)))) :pattern ((cntge V M (store S k true) v))))")
 	ax("(forall (" + q + " (k Int)) (! (=> (select S k) (= (cntge V M (store S k true) v) (cntge V M S v))) :pattern ((cntge V M (store S k true) v))))")
 	ax("(forall (" + q + " (k Int)) (! (=> (and (select S k) (select V k) (>= (select M k) v)) (>= (cntge V M S v) 1)) :pattern ((cntge V M S v) (select S k))))")
+	// a positive count has a witness
+	c.declareFun("wge", []Sort{bs, is, bs, SInt}, SInt)
+	ax("(forall (" + q + ") (! (=> (> (cntge V M S v) 0) (and (select S (wge V M S v)) (select V (wge V M S v)) (>= (select M (wge V M S v)) v))) :pattern ((cntge V M S v))))")
 	qa := "(A (Array Int Int)) (lo Int) (hi Int) (v Int)"
 	ax("(forall ((A (Array Int Int)) (lo Int) (v Int)) (! (= (scge A lo lo v) 0) :pattern ((scge A lo lo v))))")
 	ax("(forall (" + qa + ") (! (=> (<= lo hi) (and (<= 0 (scge A lo hi v)) (<= (scge A lo hi v) (- hi lo)))) :pattern ((scge A lo hi v))))")
 	ax("(forall (" + qa + ") (! (=> (< lo hi) (= (scge A lo hi v) (+ (scge A lo (- hi 1) v) (ite (>= (select A (- hi 1)) v) 1 0)))) :pattern ((scge A lo hi v))))")
 	ax("(forall (" + qa + " (j Int) (x Int)) (! (=> (or (< j lo) (>= j hi)) (= (scge (store A j x) lo hi v) (scge A lo hi v))) :pattern ((scge (store A j x) lo hi v))))")
-	c.note("T-set: counting library (cntge, scge: 9 axioms)")
+	c.note("T-set: counting library (cntge, scge: 10 axioms)")
 }
